@@ -16,6 +16,8 @@ var specs = map[string]*checkSpec{
 		rule: "full product per layer: (A) 15 severities x level-tag widths 1..5 x minimal widths {16,36,60} x 28 messages, (B) messages x 20 attribute lists x caller x named, (C) every value representative x 5 severities, (D) the C04 generic layers; each record is emitted by the real logger in colored mode, its raw payload run through the SGR terminal-state simulator (hygiene) and its escape-stripped text through the layout parser; every enumerated input is distinct; distinct_outcomes = distinct payloads"},
 	"C07": {id: "C07", level: "model_checking",
 		rule: "product of logger chains (depth 1..3 quick / 1..4 thorough, 5 own-attribute lists per level incl. empty, duplicate keys and an unsorted group with duplicate members) x call-site lists (sizes 0,1,2,3,12,13,14 (+64) under 8 collision patterns) x 5 context-key sets (string / Stringer / other-typed / absent keys, nil context) x inherit flag x 3 formats; every record is decoded (JSON order-preserving decode, logfmt tokenizer, colored token split) and compared, keys values and order, with the reference merge; distinct_outcomes = distinct reference results"},
+	"C11": {id: "C11", level: "model_checking",
+		rule: "BFS over histories of SetJSONMode/SetColorMode/WithJSONMode/WithColorMode (5 argument lists each) and New(name[, mode option]) applied to any logger of a tree that starts as root+child+sibling (3 start formats) and grows to at most 5 loggers; state = (tree shape, format of every logger), de-duplicated; after every transition the getters of every logger, and in every new state a probe record of every logger, are compared with the three-state reference machine; distinct = distinct model states reached"},
 	"C19": {id: "C19", level: "model_checking",
 		rule: "BFS over histories of the ~57-op buffer alphabet from 5 roots, PrintCtx and bytes.Buffer driven in lock-step; a state is the implementation's full internal tuple (content, off, len, cap, lastRead); distinct = distinct canonical states reached"},
 }
